@@ -4,7 +4,10 @@ import (
 	"fmt"
 	"io"
 	"os"
+	"runtime"
 	"sort"
+	"strconv"
+	"time"
 	"strings"
 
 	"deps.dev/util/resolve"
@@ -17,6 +20,8 @@ import (
 //
 //	c06 encode <name> <version> < universe.txt     schema notation → one op line on stdout
 //	c06 decode < ops.txt                           op lines → root and universe in schema notation
+//	c06 probe <seconds> < op.txt                   run the resolver once under a long wall deadline; outcome and allocation
+//	c06 search <pkgs> <vers> <samples|0> [noself]  small-scope search for non-terminating resolutions among pinned universes
 //	c06 shrink <clause> < op.txt                   delta-debug the universe while the clause still fails
 //	c06 testdata-corpus                             npm/testdata universes, all roots → corpus records on stdout
 func tool(args []string) bool {
@@ -50,6 +55,28 @@ func tool(args []string) bool {
 			}
 		}
 		return true
+	case "search":
+		searchHangs(args[1:])
+		return true
+	case "probe":
+		// c06 probe <seconds> < op.txt: run the resolver once under a long deadline; report heap growth
+		b, _ := io.ReadAll(os.Stdin)
+		cd, err := decodeCase(strings.TrimSpace(string(b)), "")
+		if err != nil {
+			fmt.Fprintln(os.Stderr, err)
+			os.Exit(2)
+		}
+		secs, _ := strconv.Atoi(args[1])
+		var m0, m1 runtime.MemStats
+		runtime.ReadMemStats(&m0)
+		start := time.Now()
+		res := resolveWithin(cd.t, cd.u, cd.root[0], cd.root[1], 100*time.Duration(secs)*time.Second, time.Duration(secs)*time.Second)
+		runtime.ReadMemStats(&m1)
+		if len(res) > 80 {
+			res = res[:80] + "…"
+		}
+		fmt.Printf("%s after %v; heap allocated during the run %d MB\n", res, time.Since(start).Round(time.Millisecond), (m1.TotalAlloc-m0.TotalAlloc)>>20)
+		return true
 	case "shrink":
 		// c06 shrink <clause> < file with one op line: prints the shrunk op line and universe
 		b, _ := io.ReadAll(os.Stdin)
@@ -57,6 +84,9 @@ func tool(args []string) bool {
 		if err != nil {
 			fmt.Fprintln(os.Stderr, err)
 			os.Exit(2)
+		}
+		if args[1] == "terminates" {
+			cpuBudget = 200 * time.Millisecond // many hanging candidates: keep each attempt short
 		}
 		su, sn, sv := shrink(cd.u, cd.root[0], cd.root[1], args[1])
 		tb, body, ok := universe.NpmEncode(su)
